@@ -116,8 +116,10 @@ def gen_cases(tier, seed):
             objs.append({'t': 'non', 'name': 'y', 'up': [c, d]})
             terms = [{'pref': r.choice(['1', '-1', '1/2']), 'objs': objs}]
             mode = 'explicit'
-            explicit = r.choice([[c, d], [a, b], [a], [c, d, a], []])
+            explicit = r.choice([[c, d], [a, b], [a], [c, d, a], [],
+                                 [x], [x, a], [y, c, d]])
             explicit = list(dict.fromkeys(explicit))
+            forced_pre = 'einstein' if x in explicit or y in explicit else None
         if r.random() < 0.08:
             # closed ring  U_{x0 y0} U_{x1 y0} U_{x1 y1} U_{x2 y1} ... : every
             # index is contracted and occurs on U only; the value is the trace of
@@ -144,7 +146,19 @@ def gen_cases(tier, seed):
                              'up': [r.choice(pool)]})
             terms = [{'pref': r.choice(['1', '-1', '1/2']), 'objs': objs}]
             mode, explicit = 'explicit', []
+        pre = None
+        if locals().get('forced_pre') and r.random() < 0.7:
+            pre = forced_pre
+        forced_pre = None
+        if pre is None and r.random() < 0.25:
+            # an earlier call on the same product with other target indices in the
+            # same process (results must not depend on it)
+            allidx = sorted({s_ for t_ in terms for o_ in t_['objs']
+                             for s_ in ir.obj_index_list(o_)})
+            pre = r.choice(['einstein', [], allidx,
+                            r.sample(allidx, min(len(allidx), 2))])
         cases.append({'id': f'C20-{tier[0]}{seed}-{k:05d}', 'terms': terms,
+                      'pre_targets': pre,
                       'explicit': explicit, 'flag': r.random() < 0.5,
                       'dims': list(r.choice([(2, 2), (3, 3), (3, 2), (2, 3)])),
                       'mseed': r.randrange(1 << 30)})
@@ -216,6 +230,14 @@ def run_case(case, res):
     n_o, n_v = case['dims']
     model = orthogonal_model(n_o, n_v, case['mseed'])
     ev = tm.Evaluator(model)
+    if case.get('pre_targets') is not None:
+        pkw = {} if case['pre_targets'] == 'einstein' else \
+            {'target_idx': [ir.mk_index(s_) for s_ in case['pre_targets']]}
+        try:
+            lib_call(simplify_unitary, Expr(e, **pkw), 'U', case['flag'])
+            res.count('repeated_calls')
+        except Exception:
+            pass
     R = lib_call(simplify_unitary, E, 'U', case['flag'])
     res.count('direct_calls')
 
